@@ -244,12 +244,20 @@ Definition walk_cond (offset_end : F) (s : SLState) : bool :=
   (k_offset k <? offset_end - ft1000)
   || ((k_offset k <? offset_end) && negb (k_speed k =? n0)).
 
+(* the fix (repo_patches/C03-walk-terminates.diff): a train at rest with a zero target outside the
+   stopping window can never leave the loop; the patched loop reports it (Err 1306) *)
+Definition walk_stuck (offset_end : F) (s : SLState) : bool :=
+  let k := ts_k (sl_st s) in
+  Nat.ltb 1 (k_i k) && (k_speed k =? n0) && (k_speed_target k =? n0)
+  && (k_offset k <? offset_end - ft1000).
+
 Fixpoint sl_walk (fuel : nat) (e : Env) (pts : list (BP (F:=F))) (offset_end : F)
     (cls : nat -> ConLim) (n : nat) (s : SLState) : res SLState :=
   if walk_cond offset_end s then
     match fuel with
     | O => Err 1399
-    | S f => let? s' := sl_step e pts (cls n) s in sl_walk f e pts offset_end cls (S n) s'
+    | S f => let? _ := ensure (negb (walk_stuck offset_end s)) 1306 in
+             let? s' := sl_step e pts (cls n) s in sl_walk f e pts offset_end cls (S n) s'
     end
   else Ok s.
 
